@@ -876,7 +876,6 @@ def c13_run(ctx):
     with ThreadPoolExecutor(max_workers=8) as ex:
         results = list(ex.map(robust(lambda sd: H.run_sequence(sd, n_req, fixed=True), 'http sequence'), seeds))
     kinds, statuses, n_total = {}, {}, 0
-    known_500 = 0
     first_mismatch = None
     for sd, r in zip(seeds, results):
         n_total += r["n"]
@@ -895,20 +894,11 @@ def c13_run(ctx):
             # a concrete deviation from the store semantics the route stands for
             if first_mismatch is None:
                 first_mismatch = (sd, m)
-        # 5xx on a client error: known class F13b = store validation errors surfacing as 500 on append/import
+        # no 5xx at all on the unchanged tree: the only 5xx the model has is a remove the store itself fails (C13_5xx_only_failed_remove)
         for n, (k, s_) in enumerate(zip(r["kinds"], r["statuses"])):
             if s_.startswith("5"):
-                if k in ("append", "import"):
-                    known_500 += 1
-                else:
-                    ctx.violation(f"request #{n} ({k}) answered {s_}", dict(engine="H", seed=sd, n_requests=n_req, request_index=n,
-                                                                            raw_request=r["raws"][n]))
-    if known_500 and any(k["key"] == "validation-errors-are-500" for k in ctx.known):
-        k = [k for k in ctx.known if k["key"] == "validation-errors-are-500"][0]
-        ctx.known_lines.append(f"KNOWN-FINDING: property=C13 {k['key']}: {k['what']} ({known_500} occurrences in this run)")
-    elif known_500:
-        ctx.violation("client errors (append into an unregistered context / NUL topic) answered with 500 instead of 4xx",
-                      dict(engine="H", seeds=seeds[:3], n_requests=n_req))
+                ctx.violation(f"request #{n} ({k}) answered {s_}: a request the store refuses is a client error (4xx), and nothing else may fail",
+                              dict(engine="H", seed=sd, n_requests=n_req, request_index=n, raw_request=r["raws"][n]))
     if first_mismatch and not any(not v["no_input"] for v in ctx.violations):
         sd, m = first_mismatch
         ctx.violation(f"HTTP route deviates from the store operation it stands for: request `{m['request'][:200]}` answered "
